@@ -135,6 +135,27 @@ def normalisation_rules(ctx, report, prefix="R10", parts=("clean", "norm")):
             raise AnalysisError(f"cannot evaluate construction of {cls.short}: {e}")
         vals = {repr(x.value.strval) if x.kind == "return" and isinstance(x.value, Obj) else f"{x.kind}:{x.value!r}" for x in outs}
         r.instance({"class": q, "value": sorted(vals)[:2]})
+        # a construction with validation off that raises on a condition over the un-normalised text: white space / letter case decide the outcome
+        want_repr = repr(want)
+        for x in outs:
+            if x.kind != "raise":
+                continue
+            dep = None
+            for ev in x.events:
+                if ev.get("kind") != "compare":
+                    continue
+                for side in ("left", "right"):
+                    txt = repr(ev.get(side)).replace(want_repr, "CLEAN")
+                    if "SStr('S', 'raw')" in txt:
+                        dep = (txt, ev.get("op"), repr(ev.get("right" if side == "left" else "left")), ev.get("func"))
+                        break
+                if dep:
+                    break
+            if dep:
+                where = getattr(x.value, "where", None) or cls.where
+                r.finding(f"{cls.short}:raw-condition", f"{cls.short}(raw) can raise {getattr(x.value, 'name', x.value)} on a condition over the text as typed, before normalisation "
+                          f"({dep[0]} {dep[1]} {dep[2]} in {dep[3]}): white space or letter case decide whether the text is accepted", where)
+                break
         for x in outs:
             if x.kind == "return" and isinstance(x.value, Obj):
                 if x.value.strval != want:
